@@ -699,6 +699,17 @@ func checkAbortCoverage(c *core.Ctx) {
 			if abortPos == 0 {
 				return
 			}
+			// only the recover paths: a helper that is handed a ready error (e.g. for a stack overflow, R20.10) builds none
+			recovers := false
+			ast.Inspect(body, func(n ast.Node) bool {
+				if call, ok := n.(*ast.CallExpr); ok && core.IsBuiltin(info, call, "recover") {
+					recovers = true
+				}
+				return true
+			})
+			if fromRec == 0 && !recovers {
+				return
+			}
 			found = true
 			c.Check(inLoop && fromRec != 0 && fromRec < abortPos, "R20.3", e.name+" recover path notifies Abort for every collected frame in "+name, pos,
 				"Abort is called in a loop over the collected listeners, after the error is built",
